@@ -1,17 +1,103 @@
 (* C17 — SortedInts implements finite-set algebra on its canonical representation.
-   This file contains only the property theorems, closed by [exact], and their assumptions. *)
+   This file contains only the property theorems, closed by [exact], and their assumptions.
+
+   Reading guide.  [SInc l] = l increases strictly (StronglySorted Z.lt).  A SortedInts value is
+   the list of its elements; the receiver of a mutator is [sl] = (backing array up to its
+   capacity, length) with [view] = the elements and [wf] = "the length fits the array and the
+   view increases strictly".  [res] = Ret value | Panic | OutOfFuel: every theorem excludes
+   OutOfFuel and states exactly when the call panics.  By [C17_canonical_unique] a statement
+   "the result is strictly increasing and has exactly these elements" fixes the result. *)
 From Coq Require Import List ZArith.
-From Mamba Require Import Sortints.Base Sortints.Model Sortints.Spec Sortints.Merge.
+From Mamba Require Import Sortints.Base Sortints.Model Sortints.Spec Sortints.Merge
+  Sortints.Simple Sortints.UnionM Sortints.Add Sortints.History
+  IntSort.Model IntSort.Perm IntSort.Sorted IntSort.Heap.
+From Coq Require Import Sorting.Permutation.
 Import ListNotations.
 Open Scope Z_scope.
 
-(* A strictly increasing list is determined by its elements: "the strictly increasing slice
-   representing the mathematical result" is unique, so the statements below fix the result. *)
 Theorem C17_canonical_unique : forall l1 l2, SInc l1 -> SInc l2 ->
   (forall x, In x l1 <-> In x l2) -> l1 = l2.
 Proof. exact SInc_unique. Qed.
 Print Assumptions C17_canonical_unique.
 
+(* ---------------------------------------------------------------- NewSortedInts *)
+Theorem C17_new_sorted_ints : forall xs,
+  exists r, new_sorted_ints xs = Ret r /\ SInc r /\ forall z, In z r <-> In z xs.
+Proof. exact new_sorted_ints_set. Qed.
+Print Assumptions C17_new_sorted_ints.
+
+Example C17_new_sorted_ints_nonvacuous : new_sorted_ints [5; -2; 5; 3; -2; 9; 3] = Ret [-2; 3; 5; 9].
+Proof. vm_compute. reflexivity. Qed.
+
+(* ---------------------------------------------------------------- Add *)
+(* every argument list: unsorted, with repeats, with elements already present; never panics *)
+Theorem C17_add : forall s xs, SInc s ->
+  exists r, add s xs = Ret r /\ SInc r /\ forall z, In z r <-> In z s \/ In z xs.
+Proof. exact add_spec. Qed.
+Print Assumptions C17_add.
+
+Example C17_add_nonvacuous : SInc [-2; 3; 4] /\ add [-2; 3; 4] [-2; -2; 5; 4; 0; 5] = Ret [-2; 0; 3; 4; 5].
+Proof. split; [sinc|vm_compute; reflexivity]. Qed.
+
+(* ---------------------------------------------------------------- Remove *)
+Theorem C17_remove : forall s x, wf s ->
+  wf (remove_m s x) /\
+  (forall z, In z (view (remove_m s x)) <-> In z (view s) /\ z <> x) /\
+  length (fst (remove_m s x)) = length (fst s) /\
+  skipn (snd s) (fst (remove_m s x)) = skipn (snd s) (fst s).
+Proof. exact remove_m_spec. Qed.
+Print Assumptions C17_remove.
+
+Example C17_remove_nonvacuous :
+  wf ([1; 4; 6; 77; 78], 3%nat) /\ remove_m ([1; 4; 6; 77; 78], 3%nat) 4 = ([1; 6; 6; 77; 78], 2%nat).
+Proof. split; [split; [simpl; auto with arith|unfold view; simpl; sinc]|vm_compute; reflexivity]. Qed.
+
+(* ---------------------------------------------------------------- the Union method *)
+(* Both capacity branches return the same view, [union_loop (view s) b], which by [C17_union]
+   below is the strictly increasing list of the union.  When the capacity suffices the merge
+   happens inside the receiver's array: it keeps its length and all cells from the new length on. *)
+Theorem C17_union_method : forall s b, wf s -> SInc b ->
+  let r := union_loop (view s) b in
+  exists s', union_m s b = Ret s' /\ wf s' /\ view s' = r /\ snd s' = length r /\
+    (if (length r <=? length (fst s))%nat
+     then length (fst s') = length (fst s) /\ skipn (length r) (fst s') = skipn (length r) (fst s)
+     else fst s' = r).
+Proof. exact union_m_spec. Qed.
+Print Assumptions C17_union_method.
+
+Theorem C17_union_method_elements : forall a b, SInc a -> SInc b ->
+  SInc (union_loop a b) /\ forall z, In z (union_loop a b) <-> In z a \/ In z b.
+Proof. exact (fun a b Ha Hb => conj (union_SInc a b Ha Hb) (union_In a b)). Qed.
+Print Assumptions C17_union_method_elements.
+
+Example C17_union_method_nonvacuous :
+  wf ([1; 5; 88; 89; 90], 2%nat) /\ SInc [0; 5; 7] /\
+  union_m ([1; 5; 88; 89; 90], 2%nat) [0; 5; 7] = Ret ([0; 1; 5; 7; 90], 4%nat) /\
+  union_m ([1; 5; 88], 2%nat) [0; 5; 7] = Ret ([0; 1; 5; 7], 4%nat).
+Proof.
+  split; [split; [simpl; auto with arith|unfold view; simpl; sinc]|].
+  split; [sinc|]. split; vm_compute; reflexivity.
+Qed.
+
+(* ---------------------------------------------------------------- sequences of mutations *)
+(* [mrun] runs Add / Remove / the Union method one after the other on one backing array.
+   [mop_ok]: the argument of the Union method is strictly increasing.  [hist_sem ops S] folds the
+   set operations (S ∪ xs, S \ {x}, S ∪ b) over the initial set S. *)
+Theorem C17_history : forall ops s, wf s -> Forall mop_ok ops ->
+  exists s', mrun s ops = Ret s' /\ wf s' /\
+             forall z, In z (view s') <-> hist_sem ops (fun y => In y (view s)) z.
+Proof. exact mrun_spec. Qed.
+Print Assumptions C17_history.
+
+Example C17_history_nonvacuous :
+  wf ([1; 5; 88; 89], 2%nat) /\ Forall mop_ok [MUnion [0; 5]; MRemove 1; MAdd [9; 0; 9]; MUnion [2]] /\
+  mrun ([1; 5; 88; 89], 2%nat) [MUnion [0; 5]; MRemove 1; MAdd [9; 0; 9]; MUnion [2]] = Ret ([0; 2; 5; 9], 4%nat).
+Proof.
+  split; [split; [simpl; auto with arith|unfold view; simpl; sinc]|].
+  split; [repeat constructor; simpl; sinc|vm_compute; reflexivity].
+Qed.
+
+(* ---------------------------------------------------------------- the binary functions *)
 Theorem C17_union : forall a b, SInc a -> SInc b ->
   exists r, union a b = Ret r /\ SInc r /\ forall z, In z r <-> In z a \/ In z b.
 Proof. exact union_spec. Qed.
@@ -19,8 +105,132 @@ Print Assumptions C17_union.
 
 Example C17_union_nonvacuous :
   SInc [-3; 1; 5] /\ SInc [1; 2; 9] /\ union [-3; 1; 5] [1; 2; 9] = Ret [-3; 1; 2; 5; 9].
+Proof. split; [sinc|split; [sinc|vm_compute; reflexivity]]. Qed.
+
+Theorem C17_intersection : forall a b, SInc a -> SInc b ->
+  exists r, intersection a b = Ret r /\ SInc r /\ forall z, In z r <-> In z a /\ In z b.
+Proof. exact intersection_spec. Qed.
+Print Assumptions C17_intersection.
+
+Example C17_intersection_nonvacuous : intersection [-3; 1; 5; 9] [1; 2; 9] = Ret [1; 9].
+Proof. vm_compute. reflexivity. Qed.
+
+(* the size is the length of a duplicate-free list of the common elements *)
+Theorem C17_intersection_size : forall a b, SInc a -> SInc b ->
+  exists r, isize a b = length r /\ NoDup r /\ forall z, In z r <-> In z a /\ In z b.
+Proof. exact isize_spec. Qed.
+Print Assumptions C17_intersection_size.
+
+Example C17_intersection_size_nonvacuous : isize [-3; 1; 5; 9] [1; 2; 9] = 2%nat.
+Proof. vm_compute. reflexivity. Qed.
+
+Theorem C17_set_minus : forall a b, SInc a -> SInc b ->
+  exists r, set_minus a b = Ret r /\ SInc r /\ forall z, In z r <-> In z a /\ ~ In z b.
+Proof. exact set_minus_spec. Qed.
+Print Assumptions C17_set_minus.
+
+Example C17_set_minus_nonvacuous : set_minus [-3; 1; 5; 9] [1; 2; 9] = Ret [-3; 5].
+Proof. vm_compute. reflexivity. Qed.
+
+Theorem C17_xor : forall a b, SInc a -> SInc b ->
+  exists r, xor a b = Ret r /\ SInc r /\
+    forall z, In z r <-> (In z a /\ ~ In z b) \/ (In z b /\ ~ In z a).
+Proof. exact xor_spec. Qed.
+Print Assumptions C17_xor.
+
+Example C17_xor_nonvacuous : xor [-3; 1; 5; 9] [1; 2; 9; 11] = Ret [-3; 2; 5; 11].
+Proof. vm_compute. reflexivity. Qed.
+
+(* ---------------------------------------------------------------- Complement *)
+(* Complement(n, a) panics exactly when len(a) > n (negative capacity in make), whatever the
+   elements of a are; otherwise it returns {0..n-1} \ a. *)
+Theorem C17_complement : forall n a, SInc a ->
+  (len a > n -> complement n a = Panic) /\
+  (len a <= n -> exists r, complement n a = Ret r /\ SInc r /\
+                           forall z, In z r <-> (0 <= z < n /\ ~ In z a)).
+Proof. exact complement_spec. Qed.
+Print Assumptions C17_complement.
+
+Example C17_complement_nonvacuous :
+  complement 6 [-1; 2; 3; 8] = Ret [0; 1; 4; 5] /\ complement 2 [5; 6; 7] = Panic.
+Proof. split; vm_compute; reflexivity. Qed.
+
+(* ---------------------------------------------------------------- ContainsSingle / ContainsSorted *)
+Theorem C17_contains_single : forall a x, SInc a -> (contains_single a x = true <-> In x a).
+Proof. exact contains_single_spec. Qed.
+Print Assumptions C17_contains_single.
+
+Example C17_contains_single_nonvacuous :
+  contains_single [-3; 1; 5] 5 = true /\ contains_single [-3; 1; 5] 2 = false.
+Proof. split; vm_compute; reflexivity. Qed.
+
+Theorem C17_contains_sorted : forall a b, SInc a -> SInc b ->
+  (contains_sorted a b = true <-> forall z, In z b -> In z a).
+Proof. exact contains_sorted_spec. Qed.
+Print Assumptions C17_contains_sorted.
+
+Example C17_contains_sorted_nonvacuous :
+  contains_sorted [-3; 1; 5; 7] [1; 7] = true /\ contains_sorted [-3; 1; 5; 7] [1; 6] = false.
+Proof. split; vm_compute; reflexivity. Qed.
+
+(* ---------------------------------------------------------------- Range *)
+(* [range_infinite start e step] = (e < start /\ step > 0) \/ (e > start /\ step < 0) \/
+   (e <> start /\ step = 0): exactly the condition of panic("Infinite set").
+   [in_range start e step z] = z = start + k*step for some k >= 0 and z lies in [start, e)
+   (when start <= e) resp. in (e, start] (when e < start). *)
+Theorem C17_range : forall start e step,
+  (range_infinite start e step -> range start e step = Panic) /\
+  (~ range_infinite start e step ->
+     exists r, range start e step = Ret r /\ SInc r /\ forall z, In z r <-> in_range start e step z).
+Proof. exact range_spec. Qed.
+Print Assumptions C17_range.
+
+Example C17_range_nonvacuous :
+  range 2 11 3 = Ret [2; 5; 8] /\ range 5 0 (-2) = Ret [1; 3; 5] /\ range 5 0 1 = Panic /\
+  ~ range_infinite 5 0 (-2).
 Proof.
-  split; [|split; [|vm_compute; reflexivity]];
-  repeat (apply SInc_cons; [|simpl; intros y Hy; repeat (destruct Hy as [<-|Hy]; [reflexivity|]); destruct Hy]);
-  apply SInc_nil.
+  split; [vm_compute; reflexivity|]. split; [vm_compute; reflexivity|]. split; [vm_compute; reflexivity|].
+  unfold range_infinite. intros [[? ?]|[[? ?]|[? ?]]]; discriminate || (compute in *; discriminate).
 Qed.
+
+(* ---------------------------------------------------------------- ints.Sort *)
+(* Property: "ints.Sort orders any slice like the standard library", i.e. for every d
+       sort d = Ret (isort d)            ([isort] = the model of sort.Ints)
+   Proved in full: the result is a permutation of the input for every input, fuel and depth;
+   the statement itself for every slice of at most 12 cells; total correctness of insertionSort
+   and of heapSort (the depth-exhausted path) on every segment.
+   NOT proved: for len d > 12, that the quickSort path returns at all (no Panic/OutOfFuel) and
+   that its result is sorted; this needs doPivot's postcondition (pivot block in place, smaller
+   cells left, larger cells right), which is only exercised by correspondence. *)
+Theorem C17_sort_permutation_partial : forall d d', sort d = Ret d' -> Permutation d d'.
+Proof. exact sort_perm. Qed.
+Print Assumptions C17_sort_permutation_partial.
+
+Theorem C17_sort_small_partial : forall d, len d <= 12 -> sort d = Ret (isort d).
+Proof. exact sort_small. Qed.
+Print Assumptions C17_sort_small_partial.
+
+Example C17_sort_nonvacuous :
+  sort [5; -2; 9; 5; 0; 7; 7; 1] = Ret [-2; 0; 1; 5; 5; 7; 7; 9] /\
+  sort [20; 19; 18; 17; 16; 15; 14; 13; 12; 11; 10; 9; 8; 7; 6; 5; 4; 3; 2; 1; 0] =
+  Ret [0; 1; 2; 3; 4; 5; 6; 7; 8; 9; 10; 11; 12; 13; 14; 15; 16; 17; 18; 19; 20].
+Proof. split; vm_compute; reflexivity. Qed.
+
+(* [get d i] = data[i]; [sorted_seg d a b] = data[a..b-1] is weakly increasing;
+   [same_out d d' a b] = every cell outside a..b-1 is unchanged *)
+Theorem C17_insertion_sort : forall d a b, 0 <= a <= b -> b <= len d ->
+  exists d', insertion_sort d a b = Ret d' /\ len d' = len d /\
+             sorted_seg d' a b /\ same_out d d' a b.
+Proof. exact insertion_sort_ok. Qed.
+Print Assumptions C17_insertion_sort.
+
+Theorem C17_heap_sort : forall d a b, 0 <= a <= b -> b <= len d ->
+  exists d', heap_sort d a b = Ret d' /\ len d' = len d /\
+             sorted_seg d' a b /\ same_out d d' a b.
+Proof. exact heap_sort_ok. Qed.
+Print Assumptions C17_heap_sort.
+
+Example C17_heap_sort_nonvacuous :
+  heap_sort [99; 5; -2; 9; 5; 0; 7; -50] 1 7 = Ret [99; -2; 0; 5; 5; 7; 9; -50] /\
+  insertion_sort [99; 5; -2; 9; 5; 0; 7; -50] 1 7 = Ret [99; -2; 0; 5; 5; 7; 9; -50].
+Proof. split; vm_compute; reflexivity. Qed.
